@@ -139,5 +139,6 @@ Print Assumptions C01_root_pipeline_orig_panics.
         C06/C07  tokenize_total and the parser totalities
         C04  get_total                   cascadeValue / Get on every element incl. the root
         C14  bookmark_no_panic
-        C09  wrap_table_total (from table_fixup_wf)
+        C09  C09_table_fixup_total / C09_wrap_table_total, C09_inline_in_block_total,
+             C09_four_passes_total (Properties/C09.v; BlockInInline termination is a _statement there)
         C12  paginate_progress           instance of PROGRESS for its paginator   *)
